@@ -52,11 +52,18 @@ def real_run(prog, rows, agg, fname="p.csv", policy=("collect",), method="collec
         try:
             if method == "collect":
                 out["lines"] = c.collect(ptxt)
-            elif method == "next":
-                out["lines"] = [ln[:] for ln in c.next(ptxt)]
-            elif method == "parse+next":
-                c.parse(ptxt)
-                out["lines"] = [ln[:] for ln in c.next()]
+            elif method in ("next", "parse+next"):
+                # the caller keeps the objects next() hands out (list(path.next())): they are looked at again after the run
+                if method == "parse+next":
+                    c.parse(ptxt)
+                    it = c.next()
+                else:
+                    it = c.next(ptxt)
+                held, at_yield = [], []
+                out["_held"], out["lines_at_yield"] = held, at_yield
+                for ln in it:
+                    held.append(ln)
+                    at_yield.append(ln[:])
             elif method == "parse+collect":
                 c.parse(ptxt)
                 out["lines"] = c.collect()
@@ -64,6 +71,11 @@ def real_run(prog, rows, agg, fname="p.csv", policy=("collect",), method="collec
                 c.fast_forward(ptxt)
         except Exception as e:  # noqa
             out["exc"] = f"{type(e).__name__}: {str(e)[:300]}"
+    if "_held" in out:
+        held = out.pop("_held")
+        if out["exc"] is None:
+            out["lines"] = [ln[:] for ln in held]
+        out["lines_changed_after_yield"] = [ln[:] for ln in held] != out["lines_at_yield"]
     out["rec"] = rec
     out["csvpath"] = c
     out["printed"] = cap.lines
